@@ -7,6 +7,7 @@
 From Coq Require Import NArith ZArith List String Bool.
 From V Require Import Base.UString Base.Json Model.SchemaTypes Model.PyBase Model.Schema
      Spec.StixValid Spec.SchemaRefine Proofs.SchemaScope Proofs.SchemaProved Proofs.SchemaKnot Proofs.SchemaC02 Proofs.SchemaTables
+     Proofs.SchemaCovProved Proofs.SchemaCovKnot Proofs.SchemaCovC02
      Gen.Tables Gen.SpecTables Model.RegistryBuilder Proofs.C19Inherit Proofs.C19InheritRefine Proofs.C19InheritTables.
 From V Require Model.Registry.
 Import ListNotations.
@@ -42,4 +43,59 @@ Proof. vm_compute. reflexivity. Qed.
 (* built-in classes stay covered in the extended world *)
 Lemma ex_builtin_still_covered_lemma :
   forallb (fun c => class_proved cover_depth (world_add lib CMarking V21 (u "x-ex-marking") ex_marking) c) lib_covered = true.
+Proof. vm_compute. reflexivity. Qed.
+
+(* ---------------- with the schema family's larger coverage predicate (class_proved2) ---------------- *)
+
+Lemma custom_type_strict_sound_wide_lemma :
+  forall (vr : variant) (ev : env) bv k V n xt user cn
+         (pattern_ok : ver -> ustring -> bool) (selectors_ok : list (ustring * pval) -> pval -> result bool)
+         (fuel m : nat) (req : request) oc inner dfl hc,
+    variant_sound vr = true -> env_ok ev = true ->
+    forallb slot_kind_ok user = true -> name_ok_for k n = true ->
+    req_strict req = true -> req_scope req = true ->
+    run vr ev (world_add lib k V n (custom_cls bv k V n xt user cn)) pattern_ok selectors_ok fuel req
+      = Ok (PObject oc inner dfl hc) ->
+    class_proved2 m (world_add lib k V n (custom_cls bv k V n xt user cn)) oc = true ->
+    hc = false /\
+    exists f, valid_obj (world_add spec_relaxed k V n (custom_cls bv k V n xt user cn)) pattern_ok f oc
+                        (encode false (PObject oc inner dfl hc)) = true.
+Proof.
+  intros vr ev bv k V n xt user cn pok sok fuel m req oc inner dfl hc Hvr Hev HK HN Hst Hsc Hrun Hcp.
+  eapply strict_sound_partial2_gen; eauto.
+  apply extended_world_refines_lemma; [exact HK | apply custom_cid_fresh_lemma | exact HN].
+Qed.
+
+(* the premise is satisfiable at custom types of every kind *)
+Definition bv1 : bvar := {| b_conf_range := true |}.
+Definition ex_user : list slot :=
+  [mk_slot (u "prop1") KString true DNone; mk_slot (u "count_it") (KInt (Some 0%Z) None) false DNone;
+   mk_slot (u "seen_ref") (KRef true [] [u "identity"] V21) false DNone;
+   mk_slot (u "x_tags") (KList KString) false DNone].
+Definition ex_user20 : list slot :=
+  [mk_slot (u "prop1") KString true DNone; mk_slot (u "count_it") (KInt (Some 0%Z) None) false DNone;
+   mk_slot (u "x_tags") (KList KString) false DNone].
+
+Definition ex_object21 : cls := custom_cls bv1 CObject V21 (u "x-ex-object") None ex_user (u "ExObject").
+Definition ex_object20 : cls := custom_cls bv1 CObject V20 (u "x-ex-object") None ex_user20 (u "ExObject20").
+Definition ex_observable21 : cls := custom_cls bv1 CObservable V21 (u "x-ex-observable") None ex_user (u "ExObservable").
+Definition ex_observable20 : cls := custom_cls bv1 CObservable V20 (u "x-ex-observable") None ex_user20 (u "ExObservable20").
+Definition ex_extension21 : cls :=
+  custom_cls bv1 CExtension V21 (u "x-ex-ext") (Some Registry.XPropertyExt) ex_user20 (u "ExExtension").
+
+Definition covered_in_extended (k : ckind) (V : ver) (n : ustring) (c : cls) : bool :=
+  class_proved2 cover2_depth (world_add lib k V n c) (cid c).
+
+Lemma ex_custom_types_covered_lemma :
+  covered_in_extended CObject V21 (u "x-ex-object") ex_object21 = true /\
+  covered_in_extended CObject V20 (u "x-ex-object") ex_object20 = true /\
+  covered_in_extended CObservable V21 (u "x-ex-observable") ex_observable21 = true /\
+  covered_in_extended CObservable V20 (u "x-ex-observable") ex_observable20 = true /\
+  covered_in_extended CExtension V21 (u "x-ex-ext") ex_extension21 = true /\
+  covered_in_extended CMarking V21 (u "x-ex-marking") ex_marking = true.
+Proof. repeat split; vm_compute; reflexivity. Qed.
+
+(* the built-in classes the wide theorem covers stay covered when a custom object type is added *)
+Lemma ex_builtins_still_covered_wide_lemma :
+  forallb (fun c => class_proved2 cover2_depth (world_add lib CObject V21 (u "x-ex-object") ex_object21) c) lib_covered2 = true.
 Proof. vm_compute. reflexivity. Qed.
